@@ -240,6 +240,13 @@ type shardDump struct {
 	Extra              map[string]interface{}
 }
 
+// OnShardCrash, when set, is asked what to do when a worker process dies: it may report the death as a
+// violation (under crashMu) and return true, in which case the run goes on without that shard's results.
+var OnShardCrash func(r *Run, shard, n int, err error) bool
+
+// CrashMu serialises OnShardCrash callbacks.
+var CrashMu sync.Mutex
+
 // Sharded runs body in n worker processes (re-executions of this binary with VERIF_SHARD=i/n), each
 // handling the cases whose index is i mod n, merges what they covered into r and reports violations
 // from the parent. In a worker process it runs body for that shard and never returns.
@@ -275,8 +282,9 @@ func Sharded(r *Run, n int, body func(r *Run, shard, nshards int)) {
 	tmp := filepath.Join(drv.VerifDir(), ".build", "tmp")
 	os.MkdirAll(tmp, 0o755)
 	type res struct {
-		d   shardDump
-		err error
+		d       shardDump
+		err     error
+		crashed bool
 	}
 	results := make([]res, n)
 	var wg sync.WaitGroup
@@ -291,6 +299,10 @@ func Sharded(r *Run, n int, body func(r *Run, shard, nshards int)) {
 			cmd.Stderr = os.Stderr
 			cmd.Stdout = os.Stderr
 			if err := cmd.Run(); err != nil {
+				if OnShardCrash != nil && OnShardCrash(r, i, n, err) {
+					results[i].crashed = true
+					return
+				}
 				results[i].err = fmt.Errorf("shard %d: %v", i, err)
 				return
 			}
@@ -305,6 +317,10 @@ func Sharded(r *Run, n int, body func(r *Run, shard, nshards int)) {
 	}
 	wg.Wait()
 	for i := range results {
+		if results[i].crashed {
+			r.Cap(fmt.Sprintf("shard %d died (reported as a violation); its remaining cases were not explored", i))
+			continue
+		}
 		if results[i].err != nil {
 			fmt.Println("INFRA:", results[i].err)
 			os.Exit(2)
